@@ -30,6 +30,14 @@ CHECKS = {
             'two deep; three deep in thorough): denied => WritePermissionError and identical snapshot; allowed => no '
             'WritePermissionError; seal()/seal(False) recurse.',
             BASE_NOTE),
+    'C09': ('E1-statespace', 'model_checking',
+            'explicit-state BFS over mutation histories on trees of logging receivers; per-call notification oracle + freshness against a fresh deep copy',
+            'Every menu operation at every node (and batched deep rebinds with 1-3 paths) with notifications on / off / '
+            'skipped on trees mixing objects overriding _on_change (with / without super), dicts/lists with callbacks and '
+            'plain containers: exactly one event per affected subscriber, none for others, children before parents, '
+            'payload checked against pre/post snapshots, one _on_bound per event; after every ordinary step the derived '
+            'facts of every node equal those of a fresh deep copy.',
+            BASE_NOTE),
     'C02': ('E1-statespace', 'model_checking',
             'explicit-state BFS to closure over the real pg.List/pg.Dict with a lock-step plain list/dict reference model',
             'Every (reachable content, operation) pair over the list/dict API menu with all indices/slices/steps within '
